@@ -135,18 +135,20 @@ var (
 	reBlocking = regexp.MustCompile(`\bi\.PM\(|\bi\.VM\(|\bfv\(|\bmv\(|y\.FV\(|y\.Apply\(|\blk\(|\bf\d+\(|func\(\) int`)
 )
 
-// linesWithAtoms returns the lines of src that mention both atom ids named first in the message.
+// linesWithAtoms returns the lines of src that mention one of the two atom ids named first in the message (the
+// other one may sit in a function called from that line). An atom is written y.Y(id), x.M(id), f(a, id), or - for
+// the bool and string atoms - y.B(id, cond) / y.S(id, s).
 func linesWithAtoms(src, message string) []string {
 	m := reAtomIDs.FindAllStringSubmatch(message, 2)
 	if len(m) < 2 {
 		return nil
 	}
 	has := func(line, id string) bool {
-		return regexp.MustCompile(`[( ]` + id + `\)`).MatchString(line)
+		return regexp.MustCompile(`[( ]`+id+`\)|y\.[BS]\(`+id+`,`).MatchString(line)
 	}
 	var out []string
 	for _, line := range strings.Split(src, "\n") {
-		if has(line, m[0][1]) && has(line, m[1][1]) {
+		if has(line, m[0][1]) || has(line, m[1][1]) {
 			out = append(out, line)
 		}
 	}
